@@ -72,10 +72,19 @@ def Idx.toInt : Idx → Except PyErr Int
   | .int i => .ok i
   | .strChar => .error .typeError      -- numpy: no ufunc loop for a string operand
 
+/-- `padding == "same"` -/
+def isSamePadding (padding : Val) : Bool :=
+  match padding with | .str s => s == "same" | _ => false
+
+/-- `if padding == "valid": padding = [0] * ndim` -/
+def normalisePadding (ndim : Nat) (padding : Val) : Val :=
+  match padding with
+  | .str s => if s == "valid" then Val.list (List.replicate ndim (.int 0)) else padding
+  | _ => padding
+
 /-- One axis of the `for` loop in `calculate_conv_output`. -/
 def convAxisVal (inputShape padding dilation kernel stride : Val) (i : Nat) : Except PyErr Int := do
-  let isSame := match padding with | .str s => s == "same" | _ => false
-  if isSame then
+  if isSamePadding padding then
     (← indexTuple inputShape i).toInt
   else
     let n ← (← indexTuple inputShape i).toInt
@@ -96,9 +105,7 @@ def calculateConvOutput (inputShape padding dilation kernel stride : Val) : Exce
     | Option.none => match Val.len? inputShape with
       | some n => pure n
       | Option.none => .error .typeError
-  let padding := match padding with
-    | .str s => if s == "valid" then Val.list (List.replicate ndim (.int 0)) else padding
-    | _ => padding
+  let padding := normalisePadding ndim padding
   (List.range ndim).mapM (convAxisVal inputShape padding dilation kernel stride)
 
 /-- `np.array(shapes)` at the end of `calculate_conv_output` / of `[c, *shape]` displays:
